@@ -78,6 +78,7 @@ Definition compress_fast_extState_fastReset (c : fctx) (src : mem) (srcSize cap 
 
 (* LZ4_compress_destSize_extState_internal *)
 Definition compress_destSize_internal (src : mem) (srcSize target accel : Z) : ares :=
+  let accel := clamp_accel accel in
   if target >=? compressBound srcSize then compress_fast_extState src srcSize target accel
   else compress_generic_nodict ctx_init src srcSize target FillOutput (ttype_for srcSize) false accel.
 Definition compress_destSize (src : mem) (srcSize target : Z) : ares :=
